@@ -31,6 +31,7 @@ THEOREMS = [
     "C12_unauthorized_signer_rejected",
     "C12_deleverage_health_not_worse", "C12_deleverage_bracket", "C12_deleverage_only_risk_admin",
     "C12_daily_limit", "C12_daily_resets_spaced", "C12_deleverage_tx_window", "C12_purge_guard",
+    "C12_roles_assigned_exactly_by_admin", "C12_roles_frozen_without_admin", "C12_role_holder_appointed_by_admin",
 ]
 RULE = ("privsim: 1-6 real admin instructions per case on two fixture banks (frozen in ~45% of the cases) by the entitled signer (88%) or "
         "another role; arguments: every Option combination, flag words = subsets of the 7 defined bits, single bits 0..63, the masks "
@@ -443,12 +444,105 @@ def suites(rng, tier):
     dp["bank0_frozen_at_start"] = frozen0
     ld = delev_finding_lines(rng) + [gen_delev_case(rng) for _ in range(ndv)]
     dd = {"cases": len(ld)}
-    return [{"suite": "privsim", "name": "privsim-levelC", "lines": lp, "distribution": dp},
+    lr = [gen_roles_case(rng) for _ in range({"quick": 500, "thorough": 8000, "search": 2000}[tier])]
+    return [{"suite": "roles", "name": "role-assignment", "lines": lr,
+             "distribution": {"cases": len(lr), "note": "histories of marginfi_group_configure with distinct keys per role and arbitrary signers, each followed by probes of the delegated instructions (configure_bank, configure_bank_emode, interest-only, limits-only, update_emissions_parameters, force_tokenless_repay_complete) signed by the new holder, the previous holder and the holders of the neighbouring roles"}},
+            {"suite": "privsim", "name": "privsim-levelC", "lines": lp, "distribution": dp},
             {"suite": "delevsim", "name": "delevsim-levelC", "lines": ld, "distribution": dd},
             {"suite": "txval", "name": "deleverage-bracket-shapes",
              "lines": TG.val_exhaustive(rng, "delev", 4 if tier != "thorough" else 5) + TG.val_exhaustive(rng, "delev2", 5 if tier != "thorough" else 6),
              "distribution": {"alphabet": TG.ALPHABETS["delev"], "note": "'bracketed like a liquidation': every instruction list up to the bound over start/end_deleverage, withdraw, repay, record init, borrow, compute budget, Kamino refresh, Jupiter and a liquidation end, given to the real validate_instructions with the deleverage discriminators; accepted lists must be skippable* start listed* end"}}]
 
+
+# ------------------------------------------------------------------------------------------------ role assignment
+ONE_FX = 1 << 48
+ROLE_PROBES = (0, 1, 2, 3, 4, 6)
+
+
+def gen_roles_case(rng):
+    t0 = 1_700_000_000 + rng.randrange(10 ** 6)
+    keys = [1] * 7
+    ops = []
+    for _ in range(rng.randrange(2, 7)):
+        k = rng.random()
+        if k < 0.55:
+            signer = keys[0] if rng.random() < 0.7 else rng.choice([rng.randrange(1, 10)] + keys[1:])
+            style = rng.random()
+            if style < 0.5:
+                new = rng.sample(range(1, 10), 7)          # seven DIFFERENT keys
+            elif style < 0.8:
+                new = [rng.randrange(1, 10) for _ in range(7)]
+            else:
+                new = list(keys); i, j = rng.sample(range(7), 2); new[i], new[j] = new[j], new[i]
+            if rng.random() < 0.6:
+                new[0] = keys[0] if rng.random() < 0.7 else new[0]   # mostly keep the admin, so that histories go on
+            capv = lambda: rng.choice([None, None, ONE_FX - 1, ONE_FX, 2 * ONE_FX, 15 * ONE_FX, 20 * ONE_FX, 100 * ONE_FX, 100 * ONE_FX + 1, rng.randrange(0, 120 * ONE_FX)])
+            ci, cm = capv(), capv()
+            cs = lambda v: "N" if v is None else f"S {v}"
+            ops.append(f"1 {signer} {' '.join(map(str, new))} {cs(ci)} {cs(cm)}")
+            prev = list(keys)
+            vi, vm = (15 * ONE_FX if ci is None else ci), (20 * ONE_FX if cm is None else cm)
+            accepted = signer == keys[0] and ONE_FX <= vi <= 100 * ONE_FX and ONE_FX <= vm <= 100 * ONE_FX and vi < vm
+            if accepted:
+                keys = new
+            # probes: new holder, previous holder, neighbours' holders
+            for r in rng.sample(ROLE_PROBES, 3):
+                for s in sorted({new[r], prev[r], new[(r + 1) % 7], new[(r - 1) % 7]}):
+                    ops.append(f"2 {r} {s}")
+        elif k < 0.85:
+            ops.append(f"2 {rng.choice(ROLE_PROBES)} {rng.randrange(1, 10)}")
+        else:
+            ops.append(f"3 {rng.choice([0, 1, 60, 86400, rng.randrange(0, 10 ** 6)])}")
+    return f"{t0} {len(ops)} " + " ".join(ops)
+
+
+def parse_roles(case, impl):
+    t = case.split()
+    n = int(t[1]); i = 2
+    ops = []
+    for _ in range(n):
+        c = int(t[i])
+        if c == 1:
+            signer = int(t[i + 1]); new = [int(x) for x in t[i + 2:i + 9]]; i += 9
+            caps = []
+            for _ in range(2):
+                if t[i] == "N": caps.append(None); i += 1
+                else: caps.append(int(t[i + 1])); i += 2
+            ops.append((1, signer, new, caps))
+        elif c == 2:
+            ops.append((2, int(t[i + 1]), int(t[i + 2]))); i += 3
+        else:
+            ops.append((3, int(t[i + 1]))); i += 2
+    return ops, impl.split(" | ")
+
+
+def oracle_roles(case, impl):
+    """judged on the real instructions alone: the role table changes only when the admin of that moment signs, each key lands
+    in the field of its own role, and a delegated instruction recognises exactly the holder of its role"""
+    if impl.startswith(("PANIC", "DRIVER")):
+        return None
+    ops, outs = parse_roles(case, impl)
+    if len(outs) != len(ops):
+        return {"key": "oracle-error", "what": "roles: output / op count mismatch"}
+    keys = [1] * 7
+    for op, o in zip(ops, outs):
+        if op[0] == 1:
+            x = o.split()
+            got = [int(v) for v in x[1:8]]
+            if x[0] == "OK":
+                if op[1] != keys[0]:
+                    return {"key": "roles-changed-without-admin", "what": f"marginfi_group_configure signed by wallet {op[1]} succeeded; the admin is {keys[0]}"}
+                if got != op[2]:
+                    return {"key": "role-key-in-wrong-field", "what": f"configure requested {op[2]} (admin emode curve limit emissions metadata risk) but the group stores {got}"}
+                keys = got
+            elif got != keys:
+                return {"key": "failed-configure-changed-roles", "what": f"configure failed ({x[0]}) but the table went {keys} -> {got}"}
+        elif op[0] == 2:
+            r, s = op[1], op[2]
+            if (o == "1") != (keys[r] == s):
+                return {"key": "role-not-recognised-as-assigned",
+                        "what": f"role {r} is held by wallet {keys[r]}; its instruction signed by wallet {s} was {'accepted' if o == '1' else 'refused as Unauthorized'}"}
+    return None
 
 # ------------------------------------------------------------------------------------------------ oracles
 CFG_TOKS = 34            # tokens of a config dump
@@ -769,6 +863,8 @@ def oracle_delevsim(case, impl):
 
 
 def oracle(suite, case, impl):
+    if suite == "roles":
+        return oracle_roles(case, impl)
     if suite == "txval":
         return C10.oracle_val(case, impl)
     if suite == "privsim":
@@ -777,6 +873,8 @@ def oracle(suite, case, impl):
 
 
 def nontrivial(suite, case, impl):
+    if suite == "roles":
+        return any(o.startswith("OK ") for o in impl.split(" | "))
     if suite == "txval":
         return "OK" in TG.parse_val(case, impl)["VD"]
     if suite == "privsim":
